@@ -467,9 +467,11 @@ def mon_goaway(c):
                 written.add(f[3])
             if ga_last is not None:
                 v.append(("stream-opened-after-goaway", "stream %d" % sid))
-        if op == "frame" and ga_last is None:
+        if op == "frame":
             for (t, fl, sid, p) in parse_frames(f[3]):
-                if t == 7 and sid == 0 and len(p) >= 8:
+                # every GOAWAY that lowers the last-stream-id counts (RFC 7540 6.8: a graceful shutdown sends 2^31-1
+                # first and the real id afterwards; the id never goes up)
+                if t == 7 and sid == 0 and len(p) >= 8 and (ga_last is None or int.from_bytes(p[:4], "big") & 0x7fffffff < ga_last):
                     ga_last, ga_step = int.from_bytes(p[:4], "big") & 0x7fffffff, i
                     ready = kvs(cmp_).get("ready", "-")
                     ready = set() if ready == "-" else set(ready.split(","))
